@@ -177,8 +177,13 @@ def _enum_members_in_literals(ctx):
 
     class SE(str, enum.Enum):
         X = "x"
-    cases = [(t.Literal[IE.A], (IE.A,)), (t.Literal[IE.A, "x", 5], (IE.A, "x", 5)), (t.Literal[SE.X, 0], (SE.X, 0)), (t.List[t.Literal[IE.A, IE.B]], None)]
-    data = [1, True, 1.0, 2, "A", "a", "x", "X", 0, False, 5, IE.A, SE.X, None]
+    # Literal[IE.A, 2] / Literal[SE.X, "y"]: a plain member that EQUALS another, unlisted member of the same enum (IE.B == 2) stays plain (defect #101)
+    class SE2(str, enum.Enum):
+        X = "x"
+        Y = "y"
+    cases = [(t.Literal[IE.A], (IE.A,)), (t.Literal[IE.A, "x", 5], (IE.A, "x", 5)), (t.Literal[SE.X, 0], (SE.X, 0)), (t.List[t.Literal[IE.A, IE.B]], None),
+             (t.Literal[IE.A, 2], (IE.A, 2)), (t.Literal[SE2.X, "y"], (SE2.X, "y")), (t.Literal[IE.A, 2, 3, 4, 5, 6], (IE.A, 2, 3, 4, 5, 6))]
+    data = [1, True, 1.0, 2, "A", "a", "x", "X", "y", "Y", 0, False, 5, IE.A, SE.X, None]
     for pname, mk in (("default", lambda: []), ("enum_by_value", lambda: [enum_by_value(IE, tp=int)]), ("enum_by_name", lambda: [enum_by_name()])):
         for dt in DEBUG_MODES:
             strict, lax = Retort(recipe=mk(), debug_trail=dt, strict_coercion=True), Retort(recipe=mk(), debug_trail=dt, strict_coercion=False)
@@ -197,7 +202,8 @@ def _enum_members_in_literals(ctx):
                         got = o.value[0] if members is None else o.value
                         legal = (IE.A, IE.B) if members is None else members
                         # a look-alike of a PLAIN member (2.0 for 2, SE.X for 'x') is the documented grey zone of Literal; one of an ENUM member is not
-                        if not any(got is m or (not isinstance(m, enum.Enum) and got == m) for m in legal):
+                        # ... unless the loader PRODUCED it: an enum member that is not the datum itself and is not listed (IE.B for 2 in Literal[IE.A, 2])
+                        if not any(got is m or (not isinstance(m, enum.Enum) and got == m and (not isinstance(got, enum.Enum) or got is d)) for m in legal):
                             ctx.violation("literal-returns-non-member:enum-member", f"{pname} {which} {hint!r} <- {d!r}: returned {got!r} ({type(got).__name__}), which is no member of the literal", info)
 
 
